@@ -74,4 +74,4 @@ require (
 	gorm.io/gorm v1.25.5 // indirect
 )
 
-replace github.com/siglens/siglens => /repo
+replace github.com/siglens/siglens => /tmp/c19-wt
